@@ -46,6 +46,14 @@ def variants(sources, root="/repo"):
     add("alpha_rename", lambda: _per_module(sources, alpha.rename_module))
     par = _tool("param_rename")
     keep = par.kw_names(root) if "root" in par.kw_names.__code__.co_varnames else par.kw_names()
+    # keyword names used in the sources under analysis themselves (they may differ from /repo's)
+    for p_, s_ in sources.items():
+        try:
+            for n_ in ast.walk(ast.parse(s_)):
+                if isinstance(n_, ast.Call):
+                    keep |= {k_.arg for k_ in n_.keywords if k_.arg}
+        except SyntaxError:
+            pass
     add("param_rename", lambda: _per_module(sources, lambda s: par.rename_module(s, keep)))
     logic = _tool("logic_rewrite")
 
